@@ -9,4 +9,5 @@ def run(tier, replay):
                            mc_quick=["mc/MC_Chain_flags_q"], mc_thorough=["mc/MC_Chain_flags_t"],
                            sim_cfg="mc/MC_Chain_simemit_flags", n_quick=160, n_thorough=1600,
                            focus="RejectLeavesState / OnlyValidRemembered: blocks failing at header stage (badTime, badPrevRoot), body validation (badSums), UTXO/maturity (double spends, missing, duplicate commitments), and late after the working MMRs were modified (badRoot, badSize, badKernelRoot), plus valid losing-fork blocks; the full projection (head, header head, unspent set, leaf count, stored headers/bodies, sums of best-chain blocks, full validation) is compared after every failing call and the history continues afterwards",
+                           extra_sims=[("mc/MC_Chain_simemit_orphans", 60, 600)],
                            assumptions=["transactions rejected by the pool are decided by C14"])
